@@ -969,6 +969,9 @@ coap_send_rst(coap_session_t *session, const coap_pdu_t *request) {
 
 coap_mid_t
 coap_send_rst_lkd(coap_session_t *session, const coap_pdu_t *request) {
+  /* RFC 7252 8.1: no Reset in reply to a message that arrived via multicast */
+  if (coap_is_mcast(&session->addr_info.local))
+    return COAP_INVALID_MID;
   return coap_send_message_type_lkd(session, request, COAP_MESSAGE_RST);
 }
 
